@@ -1466,7 +1466,7 @@ impl CppInterfaceGenerator<'_> {
                     Some(ref module_name) => {
                         format!("{module_name}#{}", func.name)
                     }
-                    None => make_external_component(&func.name),
+                    None => func.name.clone(),
                 };
                 let import_name = match module_name {
                     Some(ref module_name) => {
